@@ -203,6 +203,7 @@ struct VecScript {
   static Val value_init_val() { return std::is_same<T, EAgg>::value ? Val{0, 7} : Val{0, 0}; }
   static void check(const V &v, const std::vector<Val> &m, const char *what) {
     if ((size_t)v.size() != m.size() || v.empty() != m.empty()) { model_fail(what); return; }
+    if (v.data() && ((uintptr_t)v.data() % alignof(typename V::value_type)) != 0) { model_fail("data() is not aligned for the element type"); return; }
     size_t i = 0;
     for (typename V::const_iterator it = v.begin(); it != v.end(); ++it, ++i)
       if (it->k() != m[i].key || it->p() != m[i].pay) { model_fail(what); return; }
@@ -230,6 +231,13 @@ struct VecScript {
         std::string desc;
         char d[160];
         const char *exc = "";
+        // about one operation in eight carries an injected element fault (the k-th throwing-capable element event of the operation,
+        // harness temporaries included): the pre-C++17 builds select other memory algorithms, whose clean-up must behave the same
+        bool faulty = T::kHooks && r.below(8) == 0;
+        unsigned fk = r.below(7);
+        G.faultKind = faulty ? F_ELEM : F_NONE; G.faultCountdown = faulty ? (int)fk : -1; G.faultFired = false;
+        G.armed = faulty;  // throw points only exist while armed (begin_op disarms)
+        bool threwFault = false;
         try {
           switch (op) {
             case 0: case 1: {
@@ -406,8 +414,17 @@ struct VecScript {
           }
         } catch (std::out_of_range &) { exc = " !out_of_range";
         } catch (std::overflow_error &) { exc = " !overflow_error";
-        } catch (std::bad_alloc &) { exc = " !bad_alloc"; }
-        if (*exc && !fixed) model_fail("unexpected exception");
+        } catch (std::bad_alloc &) { exc = " !bad_alloc";
+        } catch (SimFault &) { exc = " !fault"; threwFault = true; }
+        G.faultKind = F_NONE; G.faultCountdown = -1; G.armed = false;
+        if (threwFault) {
+          // basic guarantee: both vectors valid, every element alive, nothing leaked or destroyed twice; the models adopt what they hold
+          ma.clear(); mb.clear();
+          for (typename V::const_iterator it = a.begin(); it != a.end(); ++it) { if (T::state_of(*it) != ES_ALIVE) model_fail("element not alive after an injected fault"); ma.push_back(Val{it->k(), it->p()}); }
+          for (typename V::const_iterator it = b.begin(); it != b.end(); ++it) { if (T::state_of(*it) != ES_ALIVE) model_fail("element not alive after an injected fault"); mb.push_back(Val{it->k(), it->p()}); }
+          if (g_elems.liveArmed + g_elems.liveHarness != (long)(a.size() + b.size())) model_fail("elements leaked or destroyed twice after an injected fault");
+          if (G.viol.set()) model_fail(G.viol.what.c_str());
+        } else if (*exc && !fixed) model_fail("unexpected exception");
         check(a, ma, "contents a");
         check(b, mb, "contents b");
         snprintf(g_line, sizeof g_line, "#%u %c %s%s | a:%zu/%zu [%s] b:%zu/%zu [%s]", step, useB ? 'b' : 'a', desc.c_str(), exc, (size_t)a.size(), (size_t)a.capacity(),
@@ -588,6 +605,8 @@ static Config kConfigs[] = {
     {"vector<EAgg,B>", &VecScript<amc::vector<EAgg, ABT(EAgg)> >::run, 11},
     {"Fixed<EAgg,6>", &VecScript<amc::FixedCapacityVector<EAgg, 6> >::run, 11},
     {"Fixed<ENonTr,5>", &VecScript<amc::FixedCapacityVector<ENT, 5> >::run, 11},
+    {"SmallVector<EAl16,3,B>", &VecScript<amc::SmallVector<EAl16, 3, ABT(EAl16)> >::run, 11},
+    {"Fixed<EAl16,4>", &VecScript<amc::FixedCapacityVector<EAl16, 4> >::run, 11},
     {"FlatSet<ETriv,B>", &SetScript<amc::FlatSet<ETriv, Cmp0, ABT(ETriv)>, true>::run, 11},
     {"FlatSet<ENonTr,SmallVector<4,S>>", &SetScript<amc::FlatSet<ENT, Cmp0, SimStdAlloc<ENT>, amc::SmallVector<ENT, 4, SimStdAlloc<ENT> > >, true>::run, 11},
     {"FlatSet<ETr,B>", &SetScript<amc::FlatSet<ETr, Cmp0, ABT(ETr)>, true>::run, 11},
